@@ -137,6 +137,7 @@ struct Global {
   int main_go;
   int live; // workers not done
   uint64_t steps, switches;
+  uint64_t stamp; // never reset: logical time for histories
   uint64_t prng;
   RunCfg cfg;
   int strategy;
@@ -209,6 +210,16 @@ static inline void hunlock() { __atomic_store_n(&H.lock, 0, __ATOMIC_RELEASE); }
 static inline bool in_arena(const void* p) { return H.base && (const char*)p >= H.base && (const char*)p < H.base + ARENA; }
 
 static void* heap_alloc(size_t size, size_t align) {
+  // monitor / harness allocations (quiet sections, or before the runtime is initialised) live on the libc heap so that
+  // the never-reusing arena holds only what the code under test allocates
+  if (!self || self->quiet) {
+    void* p = align > 16 ? aligned_alloc(align, (size + align - 1) & ~(align - 1)) : malloc(size ? size : 1);
+    if (!p) {
+      fprintf(stderr, "xrt: out of memory\n");
+      _exit(2);
+    }
+    return p;
+  }
   heap_init();
   if (align < UNIT)
     align = UNIT;
@@ -240,7 +251,7 @@ static void heap_free(void* p) {
   if (!p)
     return;
   if (!in_arena(p)) {
-    report("bad-free", "delete of %p which was not allocated by operator new", p);
+    free(p); // monitor allocation
     return;
   }
   size_t off = (char*)p - H.base;
@@ -444,6 +455,7 @@ static void hang_check(Thread* t) {
 // ev: 0 = neutral, 1 = progress (successful store/RMW), 2 = spin-ish (load / failed CAS / yield)
 static void sched_point(Thread* t, int ev) {
   G.steps++;
+  G.stamp++;
   t->steps++;
   if (ev == 1)
     t->spin = 0;
@@ -699,14 +711,7 @@ RunResult run(const RunCfg& cfg, const ThreadSpec* specs, int n) {
 // ------------------------------------------------------------------------------------------------ harness calls
 static inline bool managed(Thread* t) { return t && t->id > 0 && !t->quiet && G.running; }
 
-uint64_t stamp() {
-  Thread* t = self;
-  if (managed(t)) {
-    G.steps++;
-    return G.steps;
-  }
-  return ++G.steps;
-}
+uint64_t stamp() { return ++G.stamp; }
 void clock(VC* out) {
   init_once();
   Thread* t = self ? self : &G.thr[0];
